@@ -11,6 +11,7 @@ def main():
     for b in ("f64", "dec"):
         try:
             fw.build_bins(b, ALL_BINS)
+            fw.build_bins(b, ["x_core", "x_derived"], nostd=True)
             fw.build_bins(b, ["x_core", "x_rate"], nostd=True)
             print("built executors for %s (%.1fs)" % (b, time.time() - t0))
         except (fw.Inconclusive, fw.BuildViolation) as e:
